@@ -463,7 +463,7 @@ func (e *Exec) checkAssert(st *State, c *Term, msg string) {
 		if e.cfg.CrossCheckEvery > 0 && e.res.Verdicts%e.cfg.CrossCheckEvery == 0 && e.crossDone < 12 {
 			e.crossDone++
 			q := DumpQuery(st.pc, neg, "", nil)
-			pr, who, err := Portfolio(q, e.cfg.VerdictTimeoutS, true)
+			pr, who, err := Portfolio(q, e.cfg.CrossTimeoutS, true)
 			if err != nil {
 				e.res.inconclusive("cross-check: %v", err)
 			} else if pr != Unknown && pr != r {
